@@ -302,7 +302,6 @@ func enumXML(e *env) {
 	}
 	e.r.Extra("xml_inputs", fmt.Sprintf("%d element trees with <= %d nodes, %d wide trees, 5 namespace documents; each in array, object, object+indent and object+#seq form", nt, maxNodes, len(xmlWideCounts)))
 	e.each(items, 128, func(items []any) { checkXML(e, "xml", items) })
-	e.r.Sample(map[string]any{"section": "xml", "input": items[nt-1], "functions": "to_xml from_xml from_xml({seq:true}) from_xml({array:true})"})
 }
 
 func checkXML(e *env, fn string, items []any) {
@@ -483,7 +482,6 @@ func enumCSV(e *env) {
 	}
 	e.r.Extra("csv_inputs", len(items))
 	e.each(items, 256, func(items []any) { checkCSV(e, "csv", items) })
-	e.r.Sample(map[string]any{"section": "csv", "input": items[len(items)/2], "functions": "to_csv from_csv"})
 }
 
 // refCSVText: RFC 4180 with every field quoted.
@@ -675,6 +673,9 @@ func checkCSV(e *env, fn string, items []any) {
 			sig := "roundtrip:csv" + classifyCSV(rows, comma, text, bv, ok)
 			if strings.HasSuffix(sig, ":decode-error-returned-as-gap-value") {
 				sig = "csv:decode-error-returned-as-gap-value"
+			}
+			if strings.HasSuffix(sig, ":lost:separator-trimmed-as-leading-space") {
+				sig = "csv:separator-trimmed-as-leading-space"
 			}
 			e.violate(sig, fmt.Sprintf("%s | to_csv({comma:%q}) = %q; | from_csv = %s, want the input", want, comma, text, back), fn, items[i])
 		}
